@@ -211,7 +211,19 @@ func Upgrade8To10(old, new string, logger *log.Logger) (retErr error) {
 		if err != nil {
 			return fmt.Errorf("reading upgrade plan: %w", err)
 		}
-		if err := p.Execute(plan.NewExecutor()); err != nil {
+		if fsutil.DirExists(new) {
+			// The plan's rename step has already taken effect, so the new snapshot
+			// directory is complete. Replaying the whole plan would fail: its earlier
+			// steps would recreate the temporary directory and the rename would then
+			// hit the existing directory, or the copy would find its source gone.
+			// All that can be left to do is remove the old directory.
+			if err := os.RemoveAll(tmpName(new)); err != nil {
+				return fmt.Errorf("removing temporary upgrade directory: %w", err)
+			}
+			if err := os.RemoveAll(old); err != nil {
+				return fmt.Errorf("removing old snapshot directory %s: %w", old, err)
+			}
+		} else if err := p.Execute(plan.NewExecutor()); err != nil {
 			return fmt.Errorf("executing resumed upgrade plan: %w", err)
 		}
 		vhook.Point("upgrade810.resume.before_plan_remove")
